@@ -3,3 +3,4 @@ import SimVerif.Kernel
 import SimVerif.Lemmas.KernelBasic
 import SimVerif.Lemmas.KernelInv
 import SimVerif.Props.C02
+import SimVerif.Drv.Kernel
